@@ -232,6 +232,14 @@ void reb_integrator_saba_part1(struct reb_simulation* const r){
     
     // Only recalculate Jacobi coordinates if needed
     if (ri_saba->safe_mode || ri_whfast->recalculate_coordinates_this_timestep){
+        if (ri_saba->is_synchronized==0){
+            // The inertial coordinates are half a step behind. Synchronize first (as WHFast does).
+            reb_integrator_saba_synchronize(r);
+            if (ri_whfast->recalculate_coordinates_but_not_synchronized_warning==0){
+                reb_simulation_warning(r,"Recalculating coordinates but pos/vel were not synchronized before.");
+                ri_whfast->recalculate_coordinates_but_not_synchronized_warning++;
+            }
+        }
         reb_integrator_whfast_from_inertial(r);
         ri_whfast->recalculate_coordinates_this_timestep = 0;
         // The internal coordinates now are the synchronized inertial ones (matters if keep_unsynchronized is set).
